@@ -1172,9 +1172,9 @@ func runC17(r *vf.Run) {
 			for fi, f := range spec.Files {
 				// three different files whose names, seen from the child's working directory, differ only in leading
 				// dots and slashes
-				p := []string{filepath.Join(wdir, "x.updog"), filepath.Join(cdir, "x.updog"), filepath.Join(wdir, ".x.updog")}[fi]
+				p := []string{filepath.Join(wdir, "x+1.updog"), filepath.Join(cdir, "x+1.updog"), filepath.Join(wdir, ".x+1.updog")}[fi]
 				_ = ix.CopyFile(f.Path, p)
-				sub.Files = append(sub.Files, c17File{Rel: []string{"x.updog", "../x.updog", ".x.updog"}[fi], Path: p, Rows: f.Rows, Queries: f.Queries})
+				sub.Files = append(sub.Files, c17File{Rel: []string{"x+1.updog", "../x+1.updog", ".x+1.updog"}[fi], Path: p, Rows: f.Rows, Queries: f.Queries})
 			}
 			// a fourth data source whose file does not exist until a history writes it
 			sub.Files = append(sub.Files, c17File{Path: filepath.Join(wdir, "late.updog"), Rows: spec.Files[0].Rows, Queries: spec.Files[0].Queries})
